@@ -52,13 +52,12 @@ theorem cd_first_insertion_order {V : Type} (up : Str → Str) (s : Store V) (k 
 
 /-- FULL statement of the refinement: every history gives the outputs and the stored entries
     (in order) of a plain ordered dictionary on which the caller folds the keys.
-    It is FALSE of the code (recorded findings, see the witnesses below). -/
+    It is FALSE of the code (recorded finding, see the witness below). -/
 def cd_refines_full (up : Str → Str) : Prop :=
   ∀ (ops : List (Op Nat)), run up ([] : Store Nat) ops = runSpec [] (ops.map (foldOp up))
 
-/-- One call refines the dictionary call on the folded key unless it is one of the two recorded
-    deviations (`excluded`: `pop` of an absent name without default; `move_to_end` with a
-    non-folded or `bytes` spelling of a present name). -/
+/-- One call refines the dictionary call on the folded key unless it is the recorded deviation
+    (`excluded`: `pop` of an absent name without default). -/
 theorem cd_step_refines {V : Type} [DecidableEq V] (up : Str → Str) (up_idem : ∀ k, up (up k) = up k)
     (s : Store V) (h : Inv up s) (op : Op V) (hx : excluded up s op = false) :
     step up s op = stepSpec s (foldOp up op) :=
@@ -71,36 +70,27 @@ theorem cd_refines_partial {V : Type} [DecidableEq V] (up : Str → Str) (up_ide
     run up ([] : Store V) ops = runSpec [] (ops.map (foldOp up)) :=
   run_refines up_idem ops inv_nil hx
 
-/-- The exclusion is exactly the two finding classes: every other call is never excluded. -/
-theorem excluded_only_pop_and_move {V : Type} [DecidableEq V] (up : Str → Str) (s : Store V) (op : Op V)
-    (h : excluded up s op = true) :
-    (∃ k, op = .pop k none ∧ up k ∉ odKeys s) ∨
-    (∃ k last, op = .moveToEnd k last ∧ up k ≠ k ∧ up k ∈ odKeys s) ∨
-    (∃ k last, op = .moveToEndBytes k last ∧ up k ∈ odKeys s) := by
+/-- The exclusion is exactly the finding class: only `pop` without default on an absent name. -/
+theorem excluded_only_pop {V : Type} [DecidableEq V] (up : Str → Str) (s : Store V) (op : Op V)
+    (h : excluded up s op = true) : ∃ k, op = .pop k none ∧ up k ∉ odKeys s := by
   cases op with
   | pop k d =>
     cases d with
     | some d => simp [excluded] at h
     | none =>
-      left; refine ⟨k, rfl, ?_⟩
+      refine ⟨k, rfl, ?_⟩
       simp only [excluded, Bool.not_eq_eq_eq_not, Bool.not_true] at h
       intro hm; rw [(odHas_iff s (up k)).mpr hm] at h; cases h
-  | moveToEnd k last =>
-    right; left; refine ⟨k, last, rfl, ?_⟩
-    simp only [excluded, Bool.and_eq_true, decide_eq_true_eq] at h
-    exact ⟨h.1, (odHas_iff s (up k)).mp h.2⟩
-  | moveToEndBytes k last =>
-    right; right; exact ⟨k, last, rfl, (odHas_iff s (up k)).mp h⟩
   | _ => simp [excluded] at h
 
 /-- Recorded finding: `pop` of a missing key returns `None`; a dictionary raises KeyError. -/
 theorem pop_witness : ¬ cd_refines_full upper :=
   fun h => absurd (h [.pop ['a'] none]) (by decide)
 
-/-- Recorded finding: `move_to_end` is inherited and does not fold its key:
-    `d['a'] = 1; d.move_to_end('a')` raises KeyError. -/
-theorem move_to_end_witness : ¬ cd_refines_full upper :=
-  fun h => absurd (h [.setitem ['a'] 1, .moveToEnd ['a'] true]) (by decide)
+/-- `move_to_end` folds its key (repaired in 991e646; formerly a finding): any spelling of a
+    present name moves it, exactly as the dictionary call on the folded key. -/
+theorem move_to_end_folded {V : Type} [DecidableEq V] (up : Str → Str) (s : Store V) (k : Str) (last : Bool) :
+    step up s (.moveToEnd k last) = stepSpec s (.moveToEnd (up k) last) := rfl
 
 /-- Equal to any mapping with the same upper-cased content, whatever the order and the letter
     case of the other mapping's keys. -/
@@ -162,15 +152,16 @@ example : Inv upper ([(['A'], 1), (['B'], 2)] : Store Nat) := by
 -- a history with case variants, bytes/str-agnostic keys, every kind of call; not excluded
 example : runExcluded upper ([] : Store Nat)
     [.init [(['a'], 1), (['A'], 2), (['b'], 3)], .setitem ['a', 'b'] 4, .pop ['B'] none, .pop ['B'] (some 7),
-     .setdefault ['b'] 5, .moveToEnd ['A'] false, .or [(['a'], 9)], .copy, .delitem ['a']] = false := by decide
+     .setdefault ['b'] 5, .moveToEnd ['a'] false, .or [(['a'], 9)], .copy, .delitem ['a']] = false := by decide
 example : (run upper ([] : Store Nat)
     [.init [(['a'], 1), (['A'], 2), (['b'], 3)], .setitem ['a', 'b'] 4, .pop ['B'] none, .getitem ['a'],
      .eq [(['a', 'B'], 4), (['a'], 2)], .keys]).2
     = [.none, .none, .val 3, .val 2, .bool true, .keys [['A'], ['A', 'B']]] := by decide
 -- the excluded region is inhabited (the findings are real calls)
 example : excluded upper ([] : Store Nat) (.pop ['a'] none) = true := by decide
-example : excluded upper ([(['A'], 1)] : Store Nat) (.moveToEnd ['a'] true) = true := by decide
-example : excluded upper ([(['A'], 1)] : Store Nat) (.moveToEndBytes ['A'] true) = true := by decide
+-- the former move_to_end witness now behaves like the dictionary
+example : run upper ([] : Store Nat) [.setitem ['a'] 1, .setitem ['b'] 2, .moveToEnd ['a'] true, .keys]
+    = ([(['B'], 2), (['A'], 1)], [.none, .none, .none, .keys [['B'], ['A']]]) := by decide
 -- `cd_eq_mapping` applies to a mapping in another order and another letter case
 example : cdEq upper ([(['A'], 1), (['B'], 2)] : Store Nat) [(['b'], 2), (['a'], 1)] = true := by decide
 -- canonsort: declared names first (last index wins for a repeated declaration), rest sorted
